@@ -514,8 +514,9 @@ func TestEventsForwarderMode(t *testing.T) {
 		elapsed := time.Duration(-1)
 		if rapid.IntRange(0, 15).Draw(t, "retries") == 0 { // rarely: every refused attempt costs real back-off time (>= 0.5 s)
 			elapsed = 5 * time.Second
-			refuse = rapid.IntRange(1, 2).Draw(t, "refused-attempts")
+			refuse = rapid.IntRange(0, 2).Draw(t, "refused-attempts")
 		}
+		cutAccepted := elapsed > 0 && rapid.Bool().Draw(t, "accepted-with-broken-response-body")
 		var amu sync.Mutex
 		var accepted [][]byte
 		attempts := 0
@@ -534,6 +535,10 @@ func TestEventsForwarderMode(t *testing.T) {
 				return fakes.Reply{Status: 400}
 			}
 			accepted = append(accepted, body)
+			if cutAccepted {
+				// accepted, but the response body breaks off: the event was taken, sending it again would duplicate it
+				return fakes.Reply{Status: 202, Body: []byte("partial"), BodyErr: true}
+			}
 			return fakes.Reply{Status: 202}
 		}
 		fwd, err := statsd.NewHttpForwarderHandlerV2(logrus.StandardLogger(), "default", "http://up.invalid", 1, 4, 1, comp != "none", comp, level, elapsed, time.Hour, nil, nil, pool, nil)
